@@ -15,7 +15,8 @@
 (*     echo: returns "L" ++ first positional argument; err: raises a Lua    *)
 (*     error; pre: returns frame:preprocess(BODY) for a fixed wikitext BODY *)
 (*     given by PreBody; tpl: frame:expandTemplate{title=T1,args={"e"}};     *)
-(*     loop: never terminates (stopped by the time limit).                  *)
+(*     loop: never terminates (stopped by the time limit); pyx: a frame     *)
+(*     callback raises a Python exception; pcx: the same under pcall.       *)
 EXTENDS Transclusion
 
 CONSTANTS DepthLimit, PreBody, LogEvents
@@ -303,6 +304,14 @@ ExpItem(it, f, ea, st, X) ==
                                CASE it.fn = "echo" -> R(<<"L">> \o first.out, first.st)
                                  [] it.fn = "err" -> R(ErrLua(it.fn), Msg(s4, "error", "luaexec/683"))
                                  [] it.fn = "loop" -> R(ErrTimeout(it.fn), Msg(s4, "error", "luaexec/683"))
+                                 \* a Python exception inside a frame callback (expandTemplate with a
+                                 \* non-string title): the callback's own pushes are NOT popped by the
+                                 \* callback; only the `finally` of call_lua_sandbox unwinds them
+                                 [] it.fn = "pyx" ->
+                                      R(ErrLua(it.fn), Msg(Push(Push(s4, Lbl("frame:expandTemplate()")), Lbl("TEMPLATE_NAME")), "error", "luaexec/683"))
+                                 \* the same inside the module's own pcall; the module then returns normally
+                                 [] it.fn = "pcx" ->
+                                      R(<<"K">>, Push(Push(s4, Lbl("frame:expandTemplate()")), Lbl("TEMPLATE_NAME")))
                                  [] it.fn = "pre" ->
                                       \* frame:preprocess(BODY): nested ctx.expand(BODY, parent) — expand all
                                       LET s5 == Push(s4, Lbl("frame:preprocess()"))
